@@ -118,8 +118,11 @@ def _draw_layout(rng, *, max_features=12, min_samples=14, max_samples=30, allow_
             d["coord_attrs"] = pick()
         if container == "ds" and rng.random() < 0.4:
             d["ds_attrs"] = pick()
-    if rng.random() < 0.15 and container == "da":
+    r_ex = rng.random()
+    if r_ex < 0.15 and container == "da":
         d["extra_coord"] = rng.choice([True, "both"])
+    elif r_ex < 0.15 and container == "list" and not two_s:
+        d["extra_coord"] = "sample_src"
     if rng.random() < 0.15 and not two_s:
         d["perm_seed"] = rng.randrange(1, 1000)
     return d
